@@ -49,6 +49,28 @@ def main():
             return _pe(*a, **k)
         traceback.format_exception, traceback.print_exception = my_format_exception, my_print_exception
         warnings.simplefilter('ignore', category=ResourceWarning)
+    if spec.get('warmup_world'):
+        # an earlier run, in this interpreter, of ANOTHER program state: the world's module is loaded with a different world
+        # (same layer names, other base relations), run, and dropped again; what the runner remembers of it must not matter
+        real_world = os.environ['VW_WORLD']
+        os.environ['VW_WORLD'] = spec['warmup_world']
+        for m in [m for m in sys.modules if m == 'worldlib' or m.startswith('vw_') or m.startswith('vcten')]:
+            del sys.modules[m]
+        wcap = io.TextIOWrapper(io.BytesIO(), encoding='utf-8', errors='backslashreplace', write_through=True)
+        sys.stdout, sys.stderr = wcap, wcap
+        try:
+            Runner(defaults=spec.get('defaults', []), args=['prog'] + spec['args'],
+                   script_parts=spec.get('script_parts', ['-m', 'zope.testrunner']), cwd=spec['dir']).run()
+        except BaseException:      # noqa: only the second run is observed
+            pass
+        sys.stdout, sys.stderr = real_stdout, sys.__stderr__
+        for m in [m for m in sys.modules if m == 'worldlib' or m.startswith('vw_') or m.startswith('vcten')]:
+            del sys.modules[m]
+        os.environ['VW_WORLD'] = real_world
+        import importlib
+        importlib.invalidate_caches()
+        import worldlib
+        open(os.environ['VW_TRACE'], 'w').close()
     if spec.get('warmup_run'):
         # an earlier run in the same interpreter, after which the embedding program changes the state again: whatever a
         # feature remembers must be remembered per run, not per process
